@@ -23,7 +23,11 @@ class PyExc(Exception):
     """an interpreted Python exception in flight"""
 
     def __init__(self, exc, site=None):
-        super().__init__(repr(exc))
+        try:
+            text = repr(exc)
+        except Exception:  # the exception carries symbolic values whose repr runs repository code natively
+            text = f"{type(exc).__name__}(<symbolic payload>)"
+        super().__init__(text)
         self.exc = exc
         self.site = site
 
@@ -701,6 +705,21 @@ class Interp:
             raise Unsupported(f"assignment target {type(target).__name__}")
 
     def store_subscript(self, obj, key, v, node, frame):
+        if isinstance(obj, S.SByteBuf):
+            # buffer of symbolic length: the store must be in range and a byte; contents are not tracked
+            if obj.frozen:
+                self.raise_(TypeError("'bytes' object does not support item assignment"), node, frame)
+            if isinstance(key, (S.SInt, int)) and not isinstance(key, bool):
+                k = S.term(key)
+                if not self.ctx.decide(z3.And(k >= -obj.length, k < obj.length), "bytearray-index"):
+                    self.raise_(IndexError("bytearray index out of range"), node, frame)
+                if isinstance(v, (S.SInt, int)) and not isinstance(v, bool):
+                    if not self.ctx.decide(z3.And(S.term(v) >= 0, S.term(v) <= 255), "bytearray-value"):
+                        self.raise_(ValueError("byte must be in range(0, 256)"), node, frame)
+                    return
+                if v is None:
+                    self.raise_(TypeError("'NoneType' object cannot be interpreted as an integer"), node, frame)
+            raise Unsupported("store into a symbolic-length buffer with this key/value")
         if isinstance(key, Sym):
             raise Unsupported("store with symbolic key")
         if self.tainted(key):
